@@ -26,7 +26,7 @@ ENCODED = ["twisted._threads._team:Team.do", "twisted._threads._team:Team.grow",
            "twisted._threads._memory:createMemoryWorker", "twisted._threads._memory:MemoryWorker.do",
            "twisted._threads._memory:MemoryWorker.quit", "twisted._threads._convenience:Quit.set",
            "twisted._threads._convenience:Quit.check"]
-BOUNDS = {"quick": {"hist": 3, "eager": 4, "sched": 5}, "thorough": {"hist": 5, "eager": 6, "sched": 7}}
+BOUNDS = {"quick": {"hist": 3, "eager": 4, "sched": 6}, "thorough": {"hist": 5, "eager": 6, "sched": 7}}
 B = {}
 BOUNDS_TEXT = ("every history of <= hist events over {do(task), grow(n), shrink(n), quit, change limit, "
                "step coordinator, step 1st busy worker, step 2nd busy worker} from a fresh Team, followed by a "
@@ -172,7 +172,7 @@ def _refused(world, call):
     return False
 
 
-def _run(lim0, ops, ps, eager=False, one_raiser=None):
+def _run(lim0, ops, ps, eager=False, one_raiser=None, nosize=False):
     """eager: the coordinator performs every item as soon as it is queued (the discipline of the real
     LockWorker with a single calling thread) and STEPC is not an event.  one_raiser: index of the only
     task that raises (instead of one outcome per task)."""
@@ -186,6 +186,8 @@ def _run(lim0, ops, ps, eager=False, one_raiser=None):
         for i in range(len(ops)):
             o = ops[i]
             p = ps[i]
+            if nosize and (o == GROW or o == SHRINK):
+                return True    # not an event of this harness
             if o <= QUIT:
                 if quit_called:
                     # refused, nothing queued: a no-op event (path ends, see ASSUMPTIONS)
@@ -291,54 +293,80 @@ def _run(lim0, ops, ps, eager=False, one_raiser=None):
         _pool.LockWorker, _pool.ThreadWorker, _pool.err = saved
 
 
-def history(lim0: int, ops: List[int], p0: int, p1: int, p2: int, p3: int, p4: int, p5: int,
-            p6: int, p7: int) -> bool:
+def history(lim0: int, n: int, o0: int, o1: int, o2: int, o3: int, o4: int, o5: int, o6: int, o7: int,
+            p0: int, p1: int, p2: int, p3: int, p4: int, p5: int, p6: int, p7: int) -> bool:
     """
-    pre: 1 <= lim0 <= 2
-    pre: len(ops) <= B['hist'] and all(0 <= o <= 7 for o in ops)
+    pre: 1 <= lim0 <= 2 and 0 <= n <= B['hist']
+    pre: 0 <= o0 <= 7 and 0 <= o1 <= 7 and 0 <= o2 <= 7 and 0 <= o3 <= 7
+    pre: 0 <= o4 <= 7 and 0 <= o5 <= 7 and 0 <= o6 <= 7 and 0 <= o7 <= 7
     pre: 0 <= p0 <= 2 and 0 <= p1 <= 2 and 0 <= p2 <= 2 and 0 <= p3 <= 2
     pre: 0 <= p4 <= 2 and 0 <= p5 <= 2 and 0 <= p6 <= 2 and 0 <= p7 <= 2
     post: _
     """
-    return _run(lim0, ops, [p0, p1, p2, p3, p4, p5, p6, p7])
+    return _run(lim0, _ops(n, [o0, o1, o2, o3, o4, o5, o6, o7]), [p0, p1, p2, p3, p4, p5, p6, p7])
 
 
-def eager(lim0: int, ops: List[int], p0: int, p1: int, p2: int, p3: int, p4: int, p5: int,
-          p6: int, p7: int) -> bool:
+def eager(lim0: int, n: int, o0: int, o1: int, o2: int, o3: int, o4: int, o5: int, o6: int, o7: int,
+          p0: int, p1: int, p2: int, p3: int, p4: int, p5: int, p6: int, p7: int) -> bool:
     """
-    pre: 1 <= lim0 <= 2
-    pre: len(ops) <= B['eager'] and all(0 <= o <= 7 and o != 5 for o in ops)
+    pre: 1 <= lim0 <= 2 and 0 <= n <= B['eager']
+    pre: 0 <= o0 <= 7 and 0 <= o1 <= 7 and 0 <= o2 <= 7 and 0 <= o3 <= 7
+    pre: 0 <= o4 <= 7 and 0 <= o5 <= 7 and 0 <= o6 <= 7 and 0 <= o7 <= 7
     pre: 0 <= p0 <= 2 and 0 <= p1 <= 2 and 0 <= p2 <= 2 and 0 <= p3 <= 2
     pre: 0 <= p4 <= 2 and 0 <= p5 <= 2 and 0 <= p6 <= 2 and 0 <= p7 <= 2
     post: _
     """
-    return _run(lim0, ops, [p0, p1, p2, p3, p4, p5, p6, p7], eager=True)
+    return _run(lim0, _ops(n, [o0, o1, o2, o3, o4, o5, o6, o7]), [p0, p1, p2, p3, p4, p5, p6, p7],
+                eager=True)
 
 
-def sched(lim0: int, ops: List[int], rk: int) -> bool:
+def sched(lim0: int, n: int, o0: int, o1: int, o2: int, o3: int, o4: int, o5: int, o6: int, o7: int,
+          rk: int) -> bool:
     """
-    pre: 1 <= lim0 <= 2 and -1 <= rk <= 8
-    pre: len(ops) <= B['sched'] and all((o == 0 or 3 <= o <= 7) for o in ops)
+    pre: 1 <= lim0 <= 2 and 0 <= n <= B['sched'] and -1 <= rk <= 7
+    pre: 0 <= o0 <= 7 and 0 <= o1 <= 7 and 0 <= o2 <= 7 and 0 <= o3 <= 7
+    pre: 0 <= o4 <= 7 and 0 <= o5 <= 7 and 0 <= o6 <= 7 and 0 <= o7 <= 7
     post: _
     """
-    return _run(lim0, ops, [0] * 10, one_raiser=rk)
+    return _run(lim0, _ops(n, [o0, o1, o2, o3, o4, o5, o6, o7]), [0] * 8, one_raiser=rk, nosize=True)
+
+
+def _ops(n, os_):
+    for k in range(9):
+        if n == k:
+            return os_[:k]
+    return os_
 
 
 def _sh(firsts, seconds, trivial):
     out = [(trivial,)]
     for a in firsts:
         for b_ in seconds:
-            out.append(("len(ops) >= 2 and ops[0] == %d and ops[1] == %d" % (a, b_),))
+            out.append(("n >= 2 and o0 == %d and o1 == %d" % (a, b_),))
+    return out
+
+
+def _sched_shards():
+    out = [("n <= 1 or o0 >= 5 or o0 == 1 or o0 == 2 or o1 == 1 or o1 == 2 or o1 >= 6",)]
+    for a in (0, 3, 4):
+        for b_ in (0, 3, 4, 5):
+            pre = "n >= 2 and o0 == %d and o1 == %d" % (a, b_)
+            if (a, b_) in ((0, 0), (0, 4), (0, 5), (4, 0)):     # the big subtrees: split once more
+                out.append((pre + " and (n == 2 or o2 == 1 or o2 == 2 or o2 >= 6)",))
+                for c in (0, 3, 4, 5):
+                    out.append((pre + " and n >= 3 and o2 == %d" % c,))
+            else:
+                out.append((pre,))
     return out
 
 
 HARNESSES = [
     # a step event at position 0 (and a worker step at position 1 with a lazy coordinator) is always a
     # no-op: those histories are in the first, trivial shard
-    H(history, shards=lambda tier: _sh(range(5), range(6), "len(ops) <= 1 or ops[0] >= 5 or ops[1] >= 6"),
+    H(history, shards=[("n <= 1 or o0 >= 5",)] + [("n >= 2 and o0 == %d" % a,) for a in range(5)],
       timeout={"quick": 100, "thorough": 1500}),
-    H(eager, shards=lambda tier: _sh(range(5), (0, 1, 2, 3, 4, 6), "len(ops) <= 1 or ops[0] >= 5 or ops[1] == 7"),
+    H(eager, shards=lambda tier: _sh(range(5), (0, 1, 2, 3, 4, 6), "n <= 1 or o0 >= 5 or o1 == 5 or o1 == 7"),
       timeout={"quick": 100, "thorough": 1500}),
-    H(sched, shards=lambda tier: _sh((0, 3, 4), (0, 3, 4, 5), "len(ops) <= 1 or ops[0] >= 5 or ops[1] >= 6"),
+    H(sched, shards=lambda tier: _sched_shards(),
       timeout={"quick": 100, "thorough": 1500}),
 ]
